@@ -932,6 +932,20 @@ func genGeneric(r *rand.Rand, id int) Case {
 		c.Req.Query[0][1] = pick(r, "", phraseText(r), "x y", "{")
 	}
 	c.Req.Headers = []KV{{"Content-Type", d.CT}}
+	// the other request headers the middleware reads: none of them may change the class
+	if r.Intn(3) == 0 {
+		for _, h := range []KV{
+			{"X-Ttl-Days", pick(r, "7", "0", "-1", "65536", "99999999999999999999", "x", "", "1e3")},
+			{"X-Scope-Meta", pick(r, "", "{}", "{\"a\":1}", "not json", phraseText(r), strings.Repeat("m", 5000))},
+			{"X-CH-DSN", pick(r, "", "n1", "nope", "n1 ", phraseText(r))},
+			{"X-Async-Insert", pick(r, "0", "1", "2", "", "yes")},
+		} {
+			if r.Intn(2) == 0 {
+				c.Req.Headers = append(c.Req.Headers, h)
+				c.Class += "+" + strings.ToLower(h[0])
+			}
+		}
+	}
 	c.Req.BodyHex = hex.EncodeToString(body)
 	c.D = d
 	if r.Intn(8) == 0 {
